@@ -472,9 +472,11 @@ impl TensorWal {
             Err(e) => return Err(e.into()),
         };
 
+        let file_len = file.metadata()?.len();
         let mut reader = BufReader::new(file);
         let mut entries = Vec::new();
         let mut entry_index = 0;
+        let mut offset = 0u64;
 
         loop {
             // Read length
@@ -486,6 +488,13 @@ impl TensorWal {
             }
 
             let len = u32::from_le_bytes(len_buf) as usize;
+
+            // A record cannot extend past the end of the file: treat it as a partial write
+            // instead of allocating a buffer for whatever the length field claims.
+            if offset + 8 + len as u64 > file_len {
+                break;
+            }
+            offset += 8 + len as u64;
 
             // Read checksum
             let mut checksum_buf = [0u8; 4];
